@@ -4,6 +4,7 @@ import (
 	"crypto/ed25519"
 	"fmt"
 	"testing"
+	"time"
 
 	"verifharness/internal/adnlsrv"
 	"verifharness/internal/core"
@@ -26,7 +27,9 @@ var keyShapes = []struct {
 	{"first byte 0x00", func(p ed25519.PublicKey) bool { return p[0] == 0x00 }},
 	{"first byte 0xff", func(p ed25519.PublicKey) bool { return p[0] == 0xff }},
 	{"first byte 0xed .. 0xff", func(p ed25519.PublicKey) bool { return p[0] >= 0xed }},
-	{"first and last byte 0x00 or 0xff", func(p ed25519.PublicKey) bool { return (p[0] == 0 || p[0] == 0xff) && (p[31]&0x7f == 0 || p[31]&0x7f == 0x7f) }},
+	{"first and last byte 0x00 or 0xff", func(p ed25519.PublicKey) bool {
+		return (p[0] == 0 || p[0] == 0xff) && (p[31]&0x7f == 0 || p[31]&0x7f == 0x7f)
+	}},
 }
 
 var keyShapeCheck = &core.Check{Name: "c11/key-shapes", Fn: func(c *core.Ctx) error {
@@ -65,6 +68,44 @@ func TestKeyShapes(t *testing.T) {
 		for i := range keyShapes {
 			for k := 0; k < 2; k++ {
 				if !yield(uint64(i), sm.Next()) {
+					return
+				}
+			}
+		}
+	})
+}
+
+// c11/stall: a frame that arrives in two pieces with a long pause between them (a slow link, a server that
+// stalls in the middle of a large answer) is one frame all the same. The pause is shorter than the 10 s of
+// silence after which the client gives a connection up. tape: where the cut is (0 inside the length field,
+// 1 inside the nonce, 2 inside the payload, 3 inside the checksum), pause in ms, key seed.
+var stallCheck = &core.Check{Name: "c11/stall", Fn: func(c *core.Ctx) error {
+	where := c.Intn("where", 4)
+	pause := time.Duration(c.Intn("pause ms", 9000)) * time.Millisecond
+	seed := c.U64("seed")
+	s := &connScript{keySeed: seed, senders: 1}
+	s.server = []srvFrame{{payload: fillPayload(seed+1, 40)}, {payload: fillPayload(seed+2, 600)}, {payload: fillPayload(seed+3, 25)}}
+	s.client = [][]byte{fillPayload(seed+4, 7)}
+	s.order = []bool{true, true, true, false}
+	s.layout = adnlsrv.Layout{0, 40, 600, 25}
+	start := 2*adnlsrv.FrameOverhead + 40 // first byte of the 600-byte frame
+	off := start + []int{2, 4 + 17, 4 + 32 + 300, 4 + 32 + 600 + 11}[where]
+	s.plan.Cuts = []adnlsrv.Cut{{Off: off, Pause: pause}}
+	c.Note("connection", s.String())
+	c.Note("stall", fmt.Sprintf("%v after stream byte %d (%s of the second packet)", pause, off, []string{"length field", "nonce", "payload", "checksum"}[where]))
+	c.NonTrivial(where, int64(pause), seed)
+	c.Checkpoint()
+	totalConns.Add(1)
+	totalPackets.Add(4)
+	return runConn(s)
+}}
+
+func TestStall(t *testing.T) {
+	core.RunEnum(t, stallCheck, "a 600-byte packet cut inside its length field, nonce, payload or checksum with a pause of 2.5 s or 6 s before the rest (key from the run seed)", func(yield func(...uint64) bool) {
+		sm := core.NewSplitMix(core.Seed() ^ 0x57a11)
+		for where := uint64(0); where < 4; where++ {
+			for _, ms := range []uint64{2500, 6000} {
+				if !yield(where, ms, sm.Next()) {
 					return
 				}
 			}
